@@ -228,6 +228,7 @@ func (d *PermissionDesc) UnmarshalJSON(data []byte) error {
 	case 1:
 		if s == "*" {
 			d.Type = PermissionWildcard
+			d.Value = nil
 			return nil
 		}
 	}
